@@ -136,6 +136,10 @@ def run(ctx):
     for theme, cont, scr, n in [("frameset", "doc", False, 4 if q else 5), ("head", "doc", False, 3), ("table", "doc", False, 2 if q else 3), ("foreign", "doc", False, 2 if q else 3),
                                 ("head", "doc", True, 2 if q else 3), ("blocks", "all", False, 1 if q else 2)]:
         c01.run_theme(ctx, theme, cont, scr, n, listed, "mc-%s-%s-%d-%d" % (theme, cont, int(scr), n))
+    # random deep fragment strings (TLC -simulate): the skeleton theorem is an invariant of these runs as well
+    #  (this is how the frameset pop-to-root defect, repaired in /repo, was found)
+    for theme, num in (("cover", 10 if q else 300), ("frameset", 6 if q else 200), ("foreign", 6 if q else 200)):
+        c01.run_theme(ctx, theme, "doc", False, 9, listed, "sim-%s" % theme, simulate=(num, 9))
     ctx.exhaustive = True
     # 2. totality + skeleton on arbitrary inputs
     inputs = gen_inputs(ctx, 1200 if q else 15000)
